@@ -236,6 +236,7 @@ class Ctx:
         self.covers = []
         self.used_stubs = []
         self.notes = []
+        self.evals = 0
 
     @property
     def sym(self):
@@ -353,6 +354,10 @@ class Ctx:
 
     def cover(self, label, cond=True):
         self.covers.append((label, tobool(cond)))
+
+    def tick(self, n=1):
+        """count one enumerated concrete case evaluated inside this obligation (evidence: evaluations)"""
+        self.evals += n
 
     def note(self, text):
         self.notes.append(text)
